@@ -126,11 +126,83 @@ def model_code(m, path):
             arms.append('%d => Some(m.%s_cases(%s(x)).map(|c| match c { %s }).collect()),' % (i, t, T, vs))
     A('pub fn cases(m: &M, ty: usize, x: u32) -> Option<Vec<(usize, Vec<u32>)>> { match ty { %s _ => None } }' % ' '.join(arms))
     A('pub const CTORS: &[(usize, usize)] = &[%s];' % ', '.join('(%d, %d)' % (tlist.index(t), ri) for t in enums for _, ri, _ in enums[t]))
+    # ---- the flat rules of the program, parsed from the comments above the emitted rule functions (C01: closedness)
+    A(rules_code(m, rl, tlist, funcs))
     A('pub fn close(m: &mut M) { m.close() }')
     A('pub fn close_until(m: &mut M, cond: &dyn Fn(&M) -> bool) -> bool { m.close_until(|x| cond(x)) }')
     A('pub fn check(m: &M) -> Result<(), String> { m.verif_check() }')
     A('}')
     return '\n'.join(L) + '\n'
+
+
+def snake(name):
+    return re.sub(r'(?<!^)(?=[A-Z])', '_', name).lower()
+
+
+def rules_code(m, rl, tlist, funcs):
+    """`pub const RULES: &[Rule]` -- one entry per sub-rule family (and per implicit functionality rule): premise atoms and conclusions over
+    numbered variables, taken from the flat-rule comments of the emitted module (ages dropped)"""
+    from . import emit_sn
+    subs, _ = emit_sn.parse_module(m.src.text)
+    camel_types = {T: i for i, (t, T) in enumerate(m.types.items())}
+    seen = set()
+    out = []
+    skipped = []
+    for s in subs:
+        key = s['family'] if s['family'] else s['name']
+        if key in seen:
+            continue
+        seen.add(key)
+        name = '%s_%d' % s['family'] if s['family'] else s['name']
+        vars_ = {}
+
+        def v(x):
+            x = x.strip()
+            if x not in vars_:
+                vars_[x] = len(vars_)
+            return vars_[x]
+        prem, conc = [], []
+        ok = True
+        for atom, _age in s['atoms']:
+            am = re.match(r'^(\w+?)(?:\[diag=([0-9,]+)\])?\((.*)\)$', atom)
+            if not am:
+                ok = False
+                break
+            nm, diag, args = am.group(1), am.group(2), [a for a in am.group(3).split(',') if a.strip()]
+            if nm.endswith('Set') and nm[:-3] in camel_types and snake(nm) not in rl:
+                prem.append('RAtom { is_type: true, idx: %d, cols: &[%d] }' % (camel_types[nm[:-3]], v(args[0])))
+                continue
+            if snake(nm) not in rl:
+                ok = False
+                break
+            if diag:
+                d = [int(x) for x in diag.split(',')]
+                kept = [i for i in range(len(d)) if d[i] == i]
+                cols = [v(args[kept.index(d[j])]) for j in range(len(d))]
+            else:
+                cols = [v(a) for a in args]
+            prem.append('RAtom { is_type: false, idx: %d, cols: &[%s] }' % (rl.index(snake(nm)), ', '.join(str(c) for c in cols)))
+        nbound = len(vars_)
+        for c in s['then'] if ok else []:
+            em = re.match(r'^(\w+)==(\w+)\((\w+), (\w+)\)$', c)
+            cm = re.match(r'^(\w+)\((.*)\)$', c)
+            if em and em.group(1) in camel_types:
+                conc.append('RConc { kind: 1, idx: %d, vars: &[%d, %d] }' % (camel_types[em.group(1)], v(em.group(3)), v(em.group(4))))
+            elif cm and cm.group(1).endswith('Def') and snake(cm.group(1)[:-3]) in rl and snake(cm.group(1)) not in rl:
+                args = [a for a in cm.group(2).split(',') if a.strip()]
+                conc.append('RConc { kind: 2, idx: %d, vars: &[%s] }' % (rl.index(snake(cm.group(1)[:-3])), ', '.join(str(v(a)) for a in args)))
+            elif cm and snake(cm.group(1)) in rl:
+                args = [a for a in cm.group(2).split(',') if a.strip()]
+                conc.append('RConc { kind: 0, idx: %d, vars: &[%s] }' % (rl.index(snake(cm.group(1))), ', '.join(str(v(a)) for a in args)))
+            else:
+                ok = False
+        if not ok or len(vars_) != nbound:
+            # an atom / conclusion form this harness does not understand, or a conclusion variable the premise does not bind: left out (listed)
+            skipped.append(name)
+            continue
+        out.append('Rule { name: %s, nvars: %d, premise: &[%s], concl: &[%s] }' % (json.dumps(name), nbound, ', '.join(prem), ', '.join(conc)))
+    return ('pub use super::{RAtom, RConc, Rule};\npub const RULES: &[Rule] = &[%s];\npub const RULES_SKIPPED: &[&str] = &[%s];'
+            % (',\n    '.join(out), ', '.join(json.dumps(x) for x in skipped)))
 
 
 def iter_item_shapes_ok(m):
